@@ -60,6 +60,22 @@ SEEDS = {
  "C16-a2": ("C16", 2, "14-bit CC hot path compares only data byte 1 with the awaited LSB controller number", "stored MSB for controller N, then a non-CC channel message whose first data byte is N+32", ["C16"], {}, "caught in the quick tier because the grid contains 38 and 63 (N = 6, 31); the thorough tier uses the full 128 x 128 grid", "SEED2"),
  "C17-a1": ("C17", 1, "reset() only resets the channel range [first..=last] touched since the last reset; `last` tracked wrongly", "three channels a < m < b with m fed after both", ["C17", "C15"], {}, "MISSED by the single-channel C17 products; C17 now also runs three-channel products with reset()==new() judged on the multi-channel scanner", "SEED2"),
  "C17-a2": ("C17", 2, "with more than 8 channels touched, reset() takes a bulk path `*self = Default::default()` that loses the timeout", "non-zero timeout and at least 9 distinct channels fed before the reset", ["C17"], {}, "MISSED at first; the touch-all action (a non-contributing message on each of the 16 channels) exists for this one", "SEED2"),
+ "C01-a1": ("C01", 1, "no-std variant of the quarter-frame decoder forgets to mask the reserved bit", "build without the std feature and status 0xF1 with data byte 0x78..=0x7D", ["C01"], {}, "MISSED at first: C01 ran in the std configuration only. C01, C02, C03 and C06 now also run in the no-default-features configuration", "SEED2"),
+ "C01-a2": ("C01", 2, "release-only hand-written status decode maps 0xF5 to SystemCommonUndefined1", "a build with debug assertions off and status byte 0xF5", ["C01", "C02"], {}, "the sweeps run in release builds", "SEED2"),
+ "C03-a1": ("C03", 1, "no-std variant of the time-code-type decode lost its shift", "build without the std feature, status 0xF1, data byte 0x72..0x75 / 0x7A..0x7D", ["C03", "C01"], {}, "MISSED at first (std configuration only); caught by the new no-std parts", "SEED2"),
+ "C03-a2": ("C03", 2, "debug-only cross-check in from_bytes_unchecked collides with the lossy quarter-frame decode", "a build with debug assertions and bytes (0xF1, 0x78..=0x7F, *)", ["C18"], {"C03": "the C03 sweep runs in a release build where the change is inert; C18 re-executes the API in an unoptimised build and sees the panic"}, "", "SEED2"),
+ "C04-a1": ("C04", 1, "hand-written Deserialize: the branch for non-human-readable formats does not range-check", "serde feature and a deserializer whose is_human_readable() is false", ["C19"], {"C04": "needs the serde feature; it is a deserialisation defect"}, "MISSED at first: every front end of C19 was human readable. C19 now runs every input through a recursive adapter that reports is_human_readable() == false as well", "SEED2"),
+ "C04-a2": ("C04", 2, "shared decimal parser accumulating with wrapping arithmetic in u32", "a numeral >= 2^32 whose residue mod 2^32 is in range", ["C04", "C05"], {}, "the numeral 4294967296 was in the structured numeral list; numerals around 2^8, 2^16, 2^32, 2^64, 2^128 are now generated systematically", "SEED2"),
+ "C05-a1": ("C05", 1, "hand-rolled parser: checked multiply, unchecked add", "numerals 2^32 .. 2^32+3", ["C05"], {}, "", "SEED2"),
+ "C05-a2": ("C05", 2, "u128/i128 conversions compare `value as u64` in builds without the std feature", "no-default-features and a 128-bit value >= 2^64 whose low 64 bits are in range", ["C05", "C04"], {}, "(the agent reported having read my memory notes on sandbox quirks - no check details - outside the directories it was told to avoid)", "SEED2"),
+ "C07-a1": ("C07", 1, "O(1) reset by a u32 generation whose per-slot tag is stored as u8; hand-written PartialEq", "at least 256 resets in the scanner's history", ["C07", "C08"], {}, "MISSED at first although a 256-reset storm existed: the hand-written PartialEq made the state after the storm `==` the initial one, so the search merged them. Successors of reset-like actions are now identified strictly (key, `==` AND Debug fingerprint)", "SEED2"),
+ "C07-a2": ("C07", 2, "no-std variant of the constructor's check uses can_be_part_of_14_bit (0..=63)", "build without the std feature and an MSB controller number 32..=63", ["C07", "C18"], {}, "MISSED by C07 at first (std only; C18 saw the missing documented panic). C07 now has a no-std part", "SEED2"),
+ "C10-a1": ("C10", 1, "number bytes no longer clear the stored data LSB; an 8-bit selection stamp decides whether it is current", "a stored LSB, then exactly 128 complete 7-bit messages on the channel", ["C10", "C11"], {}, "MISSED at first (about 390 feeds deep). Now: pumped cycles (every cycle of up to three Control Changes repeated 300 times, every feed judged) in C08/C11/C13/C14/C18, and in C10 every message's encoding is fed 300 more times in a row", "SEED2"),
+ "C10-a2": ("C10", 2, "same slip as C11-a1 (derived Default vs new), found independently", "scanner created through Default", ["C10", "C17"], {}, "", "SEED2"),
+ "C18-a1": ("C18", 1, "u8 pending counter for a poll fast path leaks on a timed-out unpaired LSB; overflows after 256 leaks", "number selected, then 256 rounds of (CC 38, poll after the timeout)", ["C18", "C13"], {}, "MISSED at first (512 steps deep); caught by the pumped cycle [CC 38, poll] (panic in the unoptimised build; lost poll in release)", "SEED2"),
+ "C18-a2": ("C18", 2, "FromStr accepts 0x.. and slices at byte offset 2", "a string in which a multi-byte character straddles byte offset 2", ["C05", "C04"], {"C18": "at first: its parse strings were ASCII only (now they include multi-byte strings)"}, "C04/C05 caught it through the accepted hex numeral and the 3-byte look-alike digits; a second alphabet with 2-, 3- and 4-byte characters is now enumerated", "SEED2"),
+ "C19-a1": ("C19", 1, "data_type became optional for legacy input and the consistency check is skipped when it is absent", "map without data_type (or 5-element sequence), is_14_bit false, value > 127", ["C19"], {}, "MISSED at first, and the first version of C19 would have raised a FALSE ALARM on the harmless half of this change (accepting a missing field with a valid result): it demanded rejection of everything that is not a natural representation, which is more than the statement says. C19 now judges only what comes out (plus round trips of natural representations), and tries every input with each field omitted", "SEED2"),
+ "C19-a2": ("C19", 2, "RawShortMessage accepts a 3-byte byte string with `&` instead of `|` in the range check", "input arrives as a byte string, exactly one data byte >= 128", ["C19"], {}, "MISSED at first (no byte-string inputs); C19 now feeds byte strings, strings, scalars, nulls and nested shapes to every type", "SEED2"),
  "C14-2": ("C14", 2, "inc/dec while an LSB is pending returns [None, Some(inc/dec)]", "number, CC 38, CC 96/97", ["C14"], {"C12": "an inc/dec after a lone LSB is outside the documented grammar"}, ""),
 }
 
